@@ -47,9 +47,8 @@ inductive DiagClass
   | enumConstantTypeMismatch | blockLengthTooSmall
   -- C++ validator
   | keywordName | badSchemaName
-  -- a rule of the specification for which sbeppc has NO diagnostic (finding C08-data-header-layout):
   -- the runtime reads a `<data>` length at offset 0 and the payload right behind it, so the
-  -- data header composite must be exactly `length` (offset 0) followed by `varData`
+  -- data header composite must occupy exactly the bytes of its `length` member
   | dataHeaderLayout
   -- never produced on any input (`Lemmas/Rules.lean: fuel_never_exhausted`)
   | fuelExhausted
@@ -623,34 +622,27 @@ def headerMemberViols (types : List Elem) (hp : Path) (elems : List Elem) (name 
     else if t.length != 1 then [(.headerElementArray, ep)]
     else if t.presence == .constant then [(.headerElementConstant, ep)] else []
 
+/-- encoded size of a composite with these members -/
+def compositeSize (types : List Elem) (elems : List Elem) : Option Nat :=
+  sizeOf types (.composite "" none elems)
+
+/-- the runtime (`dynamic_array_ref`) reads the length of a `<data>` member at offset 0 and
+    expects the payload right behind it: the header composite must occupy exactly the bytes
+    of its `length` member (which then sits at offset 0, every other member being empty) -/
+def dataLayoutViols (types : List Elem) (hp : Path) (elems : List Elem) : List Viol :=
+  match headerMemberType types hp elems "length", compositeSize types elems with
+  | .ok (t, ep), some sz => if some sz == primBytes t.prim then [] else [(.dataHeaderLayout, ep)]
+  | _, _ => []
+
 /-- a level header: `user` is the entity naming it -/
 def headerViols (types : List Elem) (user : Path) (hdr : String) (required : List String) (data : Bool) : List Viol :=
   match findType types hdr with
   | none => [(.headerUnknown, user)]
   | some (.composite n _ elems _) =>
-    let hp := ["types", n]
-    required.flatMap (fun r => headerMemberViols types hp elems r false) ++
-    (if data then headerMemberViols types hp elems "varData" true else [])
+    required.flatMap (fun r => headerMemberViols types ["types", n] elems r false) ++
+    (if data then headerMemberViols types ["types", n] elems "varData" true ++ dataLayoutViols types ["types", n] elems
+     else [])
   | some e => [(.headerNotComposite, typePath e)]
-
-/-- the non-constant members of a data header are `length` at offset 0, then `varData` right behind it -/
-def dataHeaderLayoutOk (types : List Elem) (elems : List Elem) : Bool :=
-  match elems.filter (fun e => !isConstElem types e) with
-  | [l, v] =>
-    l.name == "length" && v.name == "varData" && (elemOffset l).getD 0 == 0 &&
-      (match elemOffset v, sizeOf types l with
-       | some o, some sz => o == sz
-       | _, _ => true)
-  | _ => false
-
-/-- rules the runtime relies on although sbeppc does not check them -/
-def dataLayoutViols (types : List Elem) (l : LevelView) : List Viol :=
-  l.datas.flatMap (fun d =>
-    match findType types d.type with
-    | some (.composite n _ elems _) =>
-      if (headerViols types (l.path ++ [d.name]) d.type ["length"] true).isEmpty && !dataHeaderLayoutOk types elems
-      then [(.dataHeaderLayout, ["types", n])] else []
-    | _ => [])
 
 /-- presence a field actually has (a field of enum type is never optional, a
     set never anything but required, a field of scalar type inherits the type's) -/
@@ -724,17 +716,13 @@ def levelViols (types : List Elem) (l : LevelView) : List Viol :=
   l.groups.flatMap (fun g => headerViols types (l.path ++ [gName g]) (gDim g) ["numInGroup", "blockLength"] false) ++
   l.datas.flatMap (fun d => headerViols types (l.path ++ [d.name]) d.type ["length"] true)
 
-/-- every broken rule that sbeppc has a diagnostic for, with the entity it is broken at -/
-def enforcedViolations (s : SchemaDef) : List Viol :=
+/-- every broken rule, with the entity it is broken at -/
+def violations (s : SchemaDef) : List Viol :=
   attrViols s ++ dupViols s ++ nameViols s ++
   (allElems s).flatMap (fun (p, e) => elemViols s.types p e) ++
   cycleViols s ++
   headerViols s.types ["schema"] s.headerType ["schemaId", "templateId", "version", "blockLength"] false ++
   (allLevels s).flatMap (levelViols s.types)
-
-/-- every broken rule -/
-def violations (s : SchemaDef) : List Viol :=
-  enforcedViolations s ++ ((allLevels s).flatMap (dataLayoutViols s.types)).eraseDups
 
 /-- **the specification**: no rule is broken anywhere -/
 def Rules (s : SchemaDef) : Prop := violations s = []
